@@ -47,6 +47,11 @@ def run(ck: Checker, prog: Program, tier: str):
     # the corner frequencies / window length / detrend type a run reads are its own settings object's, not state shared through
     # a default argument (rule of C15)
     from . import c15
+    # "orienting the sensor": the recorded orientation is the one given and the rotation is by the difference (rules of C04)
+    from . import c04
+    with ck.borrow(c04, "C10.R1+"):
+        ck.guard(c04._r1_r3, ck, prog)
+        ck.guard(c04._orientation_carried, ck, prog)
     with ck.borrow(c15, "C10.R1+"):
         ck.guard(c15.check_constructors, ck, prog, [prog.cls(cname) for cname in ("Settings", "PreProcessingSettings", "HvsrPreProcessingSettings", "PsdPreProcessingSettings")])
 
